@@ -126,7 +126,7 @@ def gen_set(rng):
             for _ in range(rng.randint(0, 2)):
                 kind = rng.choice(["network", "volume", "mountvol", "mountimg"])
                 if kind == "network":
-                    t = target("network"); opt = rng.choice(["", ":ip=10.0.0.5"])
+                    t = target("network"); opt = rng.choice(["", ":ip=10.0.0.5", ":mac=92:d0:c6:0a:29:33", ":ip6=fd00:1::17,alias=web", ":alias=a"])       # options may contain ':' themselves
                     c.keys.append(("Network", t + opt)); c.refs.append(("network", t, opt))
                 elif kind == "volume":
                     t = target("volume"); c.keys.append(("Volume", t + ":/dst:ro")); c.refs.append(("volume", t, ":/dst:ro"))
@@ -248,7 +248,7 @@ def run(ctx):
         check_set(ctx, s, vlib.parse_convert(outs[i]), "convert")
     ctx.oblig("correspondence: Process/Convert model = implementation on every generated unit set (all services, all errors)", mism == 0, "%d mismatches" % mism)
     # end to end sample: the real process() with discovery and sorting
-    sample = sets[: ctx.volume(40, 400)]
+    sample = sets[: ctx.volume(24, 400)]
     tree_mism = []
     with e2e.Box() as box:
         for i, s in enumerate(sample):
